@@ -611,6 +611,11 @@ def gen_run_case(cid, seed, profile=None):
     sigs = gen_signals(rng, wide=p.get("wide", False), odd_names=p.get("odd_names", False),
                        n_bidir=p.get("n_bidir"), scope_names=(rng.random() < p.get("scope_names", 0.0)))
     cols = gen_header(rng, sigs, full=p.get("full_header", False))
+    if rng.random() < p.get("out_twin", 0.0):
+        # a separate output literally named <bidirectional>_out, same width: a different signal, whatever its name suggests
+        bi = [s_ for s_ in sigs if s_["typ"] == "B"]
+        if bi:
+            sigs.insert(rng.randrange(0, len(sigs) + 1), {"name": bi[0]["name"] + "_out", "typ": "O", "bits": bi[0]["bits"], "default": "-"})
     pg = ProgGen(rng, cols, sigs, p)
     body = pg.block([], 0, rng.randrange(2, 7))
     if not any(s[0] in ("row", "repeat", "loop", "while") for s in body):
